@@ -25,3 +25,368 @@ impl ProcfsHandle {
         }
     }
 }
+
+use crate::error::ErrorKind;
+use crate::verif_kani::bounds::PATH_L;
+use std::os::unix::io::AsRawFd;
+use std::os::unix::ffi::OsStrExt;
+
+// ---------------------------------------------------------------------------
+// contract stubs
+
+/// `ProcfsResolver::resolve`: arbitrary descriptor or arbitrary error (ENOENT
+/// included); the request is recorded.
+pub(crate) fn k_proc_resolve<Fd: AsFd, P: AsRef<Path>>(
+    _this: &ProcfsResolver,
+    root: Fd,
+    path: P,
+    oflags: OpenFlags,
+    rflags: ResolverFlags,
+) -> Result<OwnedFd, Error> {
+    let raw = root.as_fd().as_raw_fd();
+    let (name, name_len) = copy_name(path.as_ref());
+    let k = kmut();
+    k.touch(raw);
+    let mut c = NO_CALL;
+    c.kind = C_PROC_RESOLVE;
+    c.dirfd = raw;
+    c.name = name;
+    c.name_len = name_len;
+    c.flags = oflags.bits() as u32 as u64;
+    c.resolve = rflags.bits();
+    if k.fails() {
+        c.errno = any_errno();
+        k.push(c);
+        Err(ErrorImpl::OsError {
+            operation: "stub".into(),
+            source: IOError::from_raw_os_error(c.errno),
+        }
+        .into())
+    } else {
+        let fd = k.new_fd(O_PROC_RESOLVER, raw, false, c.flags);
+        c.ok = true;
+        c.ret_fd = fd;
+        k.push(c);
+        Ok(owned_fd(fd))
+    }
+}
+
+/// `ProcfsBase::into_path`: some relative path (its own lookups are decided in
+/// `procfs_into_path`).
+pub(crate) fn k_into_path(_this: ProcfsBase, _proc_root: Option<BorrowedFd<'_>>) -> PathBuf {
+    PathBuf::from("b")
+}
+
+/// `ProcfsHandle::new_unmasked`: counts how many retry handles one lookup creates.
+pub(crate) fn k_new_unmasked() -> Result<ProcfsHandle, Error> {
+    let n = crate::verif_kani::kernel::counter_inc(0);
+    assert!(n <= 1, "more than one unmasked retry handle created during one lookup");
+    let k = kmut();
+    if k.fails() {
+        Err(any_error())
+    } else {
+        let fd = k.new_fd(O_PRIVATE_PROC, -1, false, 0);
+        let e = k.ent(fd).unwrap();
+        let mnt = if e.mnt_mask & 0x5000 != 0 { Some(e.mnt_id) } else { None };
+        // the new handle may itself be masked (unprivileged caller on a
+        // hidepid/subset host ends up on the same host mount again)
+        Ok(ProcfsHandle::verif_make(fd, mnt, kani::any(), kani::any()))
+    }
+}
+
+// ---------------------------------------------------------------------------
+// O6.2 verify_same_mnt / verify_is_procfs
+
+#[kani::proof]
+#[kani::unwind(6)]
+#[kani::stub(crate::syscalls::statx, k_statx)]
+#[kani::stub(alloc::fmt::format, k_format)]
+fn procfs_verify_same_mnt() {
+    install_close_model();
+    reset(3);
+    let fd = given_fd(false);
+    let root_mnt: Option<u64> = kani::any();
+    let res = verify_same_mnt(root_mnt, borrow_fd(fd), "");
+    let k = kref();
+    assert!(k.ncalls == 1 && k.log[0].kind == C_STATX && k.log[0].dirfd == fd);
+    let c = k.log[0];
+    let e = k.ent(fd).unwrap();
+    let reported = if e.mnt_mask & 0x5000 != 0 { Some(e.mnt_id) } else { None };
+    match &res {
+        Ok(()) => {
+            // accepted only if the kernel's answer equals the handle's mount id
+            // (or neither is known: pre-5.8 kernel)
+            if c.ok {
+                assert!(root_mnt == reported);
+            } else {
+                assert!((c.errno == libc::ENOSYS || c.errno == libc::EINVAL) && root_mnt.is_none());
+            }
+        }
+        Err(err) => {
+            let kd = cheap_kind(err);
+            if c.ok {
+                assert!(root_mnt != reported && kd == ErrorKind::OsError(Some(libc::EXDEV)));
+            } else if c.errno == libc::ENOSYS || c.errno == libc::EINVAL {
+                assert!(root_mnt.is_some() && kd == ErrorKind::OsError(Some(libc::EXDEV)));
+            } else {
+                assert!(kd == ErrorKind::OsError(Some(c.errno)));
+            }
+        }
+    }
+    kani::cover!(res.is_ok() && root_mnt.is_some(), "same mount");
+    kani::cover!(res.is_ok() && root_mnt.is_none(), "mount ids unknown on both sides");
+    kani::cover!(res.is_err() && c.ok, "different mount => EXDEV");
+    kani::cover!(res.is_err() && !c.ok, "statx failure fails closed");
+    std::mem::forget(res);
+}
+
+#[kani::proof]
+#[kani::unwind(6)]
+#[kani::stub(crate::syscalls::fstatfs, k_fstatfs)]
+#[kani::stub(alloc::fmt::format, k_format)]
+fn procfs_verify_is_procfs() {
+    install_close_model();
+    reset(3);
+    let fd = given_fd(false);
+    let res = verify_is_procfs(borrow_fd(fd));
+    let k = kref();
+    assert!(k.ncalls == 1 && k.log[0].kind == C_FSTATFS && k.log[0].dirfd == fd);
+    let c = k.log[0];
+    let e = k.ent(fd).unwrap();
+    match &res {
+        Ok(()) => { assert!(c.ok && e.f_type == 0x9fa0); }
+        Err(err) => {
+            let kd = cheap_kind(err);
+            if c.ok {
+                assert!(e.f_type != 0x9fa0 && kd == ErrorKind::OsError(Some(libc::EXDEV)));
+            } else {
+                assert!(kd == ErrorKind::OsError(Some(c.errno)));
+            }
+        }
+    }
+    kani::cover!(res.is_ok(), "procfs");
+    kani::cover!(res.is_err() && c.ok, "other filesystem => EXDEV");
+    kani::cover!(res.is_err() && !c.ok, "fstatfs failure fails closed");
+    std::mem::forget(res);
+}
+
+// ---------------------------------------------------------------------------
+// O6.3 try_from_fd
+
+use ::rustix as rx;
+
+pub(crate) fn k_accessat<P: rx::path::Arg, Fd: AsFd>(
+    dirfd: Fd,
+    _path: P,
+    _access: Access,
+    flags: AtFlags,
+) -> rx::io::Result<()> {
+    let raw = dirfd.as_fd().as_raw_fd();
+    let k = kmut();
+    k.touch(raw);
+    let mut c = NO_CALL;
+    c.kind = C_ACCESSAT;
+    c.dirfd = raw;
+    c.flags = flags.bits() as u64;
+    if k.fails() {
+        c.errno = any_errno();
+        k.push(c);
+        Err(rx::io::Errno::from_raw_os_error(c.errno))
+    } else {
+        c.ok = true;
+        k.push(c);
+        Ok(())
+    }
+}
+
+fn try_from_fd_body(stat_plan: u8) {
+    install_close_model();
+    reset(3);
+    let k = kmut();
+    let fd = k.new_fd(O_OPENED, -1, false, 0); // owned by the call from now on
+    k.plan[1] = stat_plan; // 2nd fallible call = fstat of the handle
+    let res = ProcfsHandle::try_from_fd(owned_fd(fd));
+    let k = kref();
+    assert!(!k.any_violation());
+    let e = *k.ent(fd).unwrap();
+    match &res {
+        Ok(h) => {
+            // only a genuine procfs ROOT becomes a handle
+            assert!(e.f_type == 0x9fa0 && e.statfs_seen);
+            assert!(e.st_ino == 1);
+            let reported = if e.mnt_mask & 0x5000 != 0 { Some(e.mnt_id) } else { None };
+            if k.count(C_STATX) == 1 && statx_ok() {
+                assert!(h.mnt_id == reported);
+            } else {
+                assert!(h.mnt_id.is_none());
+            }
+            // masked <=> one of the two probes failed
+            assert!(k.count(C_ACCESSAT) >= 1);
+            assert!(h.is_subset == access_failed());
+            assert!(h.inner.as_raw_fd() == fd && e.open);
+        }
+        Err(_) => {
+            // the descriptor handed over is closed again (C11)
+            assert!(!e.open);
+        }
+    }
+    assert!(k.n_open() == if res.is_ok() { 1 } else { 0 });
+    kani::cover!(matches!(&res, Ok(h) if h.is_subset), "masked handle");
+    kani::cover!(matches!(&res, Ok(h) if !h.is_subset), "unmasked handle");
+    kani::cover!(res.is_err(), "refused");
+    std::mem::forget(res);
+}
+
+fn statx_ok() -> bool {
+    let k = kref();
+    let mut i = 0;
+    let mut ok = false;
+    while i < MAX_CALLS {
+        if i < k.ncalls && k.log[i].kind == C_STATX && k.log[i].ok {
+            ok = true;
+        }
+        i += 1;
+    }
+    ok
+}
+
+fn access_failed() -> bool {
+    let k = kref();
+    let mut i = 0;
+    let mut f = false;
+    while i < MAX_CALLS {
+        if i < k.ncalls && k.log[i].kind == C_ACCESSAT && !k.log[i].ok {
+            f = true;
+        }
+        i += 1;
+    }
+    f
+}
+
+macro_rules! tff_h {
+    ($name:ident, $plan:expr) => {
+        #[kani::proof]
+        #[kani::unwind(8)]
+        #[kani::stub(crate::syscalls::fstatfs, k_fstatfs)]
+        #[kani::stub(crate::syscalls::statx, k_statx)]
+        #[kani::stub(crate::syscalls::openat2, k_openat2)]
+        #[kani::stub(<std::os::unix::io::BorrowedFd<'static> as crate::utils::FdExt>::metadata, crate::utils::fd::verif_h_fd::k_metadata)]
+        #[kani::stub(rx::fs::accessat, k_accessat)]
+        #[kani::stub(alloc::fmt::format, k_format)]
+        fn $name() {
+            try_from_fd_body($plan);
+        }
+    };
+}
+tff_h!(procfs_try_from_fd, P_OK);
+// C10: the fstat of the candidate /proc handle fails (EMFILE-class faults do
+// not apply to fstat, but ENOMEM / EIO / seccomp do)
+tff_h!(procfs_try_from_fd_fstat_fault, P_FAIL);
+
+// ---------------------------------------------------------------------------
+// O6.4 / O7.2 / C08: ProcfsHandle::open
+
+fn sym_subpath() -> ([u8; PATH_L], usize) {
+    let buf: [u8; PATH_L] = kani::any();
+    let len: usize = kani::any();
+    kani::assume(len <= PATH_L);
+    (buf, len)
+}
+
+fn open_body(masked: bool) {
+    install_close_model();
+    reset(3);
+    crate::verif_kani::kernel::counter_reset();
+    let hfd = given_fd(false);
+    let hmnt: Option<u64> = kani::any();
+    let h = ProcfsHandle::verif_make(hfd, hmnt, masked, kani::any());
+    let (buf, len) = sym_subpath();
+    let sub = Path::new(std::ffi::OsStr::from_bytes(&buf[..len]));
+    let bits: i32 = kani::any();
+    let base = match kani::any::<u8>() % 3 {
+        0 => ProcfsBase::ProcRoot,
+        1 => ProcfsBase::ProcSelf,
+        _ => ProcfsBase::ProcThreadSelf,
+    };
+    let res = h.open(base, sub, OpenFlags::from_bits_retain(bits));
+    let (ok, retfd, kind) = match &res {
+        Ok(f) => (true, f.as_raw_fd(), None),
+        Err(e) => (false, -1, Some(cheap_kind(e))),
+    };
+    std::mem::forget(res);
+    std::mem::forget(h);
+    let k = kref();
+    assert!(!k.any_violation());
+    // every lookup handed to the resolver is forced O_NOFOLLOW (C07) and
+    // whatever comes back is checked before it is used or returned (C06)
+    let mut i = 0;
+    let mut nres = 0;
+    while i < MAX_CALLS {
+        if i < k.ncalls && k.log[i].kind == C_PROC_RESOLVE {
+            let c = k.log[i];
+            nres += 1;
+            if nres % 2 == 0 {
+                // the sub-path lookup (after the base lookup)
+                assert!(c.flags & libc::O_NOFOLLOW as u64 != 0);
+                assert!(c.flags == (bits | libc::O_NOFOLLOW) as u32 as u64);
+                assert!(bytes_eq(&c.name, c.name_len, &buf, len));
+            } else {
+                assert!(c.flags == (libc::O_PATH | libc::O_DIRECTORY) as u32 as u64);
+            }
+            assert!(c.resolve == 0);
+        }
+        i += 1;
+    }
+    if ok {
+        let e = k.ent(retfd).unwrap();
+        assert!(e.origin == O_PROC_RESOLVER);
+        // mount id compared and fs type checked on the returned descriptor itself
+        assert!(e.statx_seen && e.statfs_seen);
+        assert!(e.f_type == 0x9fa0);
+        if !masked {
+            let reported = if e.mnt_mask & 0x5000 != 0 { Some(e.mnt_id) } else { None };
+            assert!(reported == hmnt);
+        }
+    }
+    if !masked {
+        assert!(crate::verif_kani::kernel::counter_get(0) == 0);
+    }
+    // C11: handle + (returned fd) are the only descriptors left
+    assert!(k.n_open() == 1 + if ok { 1 } else { 0 } + leaked_private());
+    assert!(leaked_private() == 0);
+    kani::cover!(ok, "opened");
+    kani::cover!(!ok && kind == Some(ErrorKind::OsError(Some(libc::EXDEV))), "over-mount detected");
+    kani::cover!(!ok && kind == Some(ErrorKind::OsError(Some(libc::ENOENT))), "ENOENT reported");
+    kani::cover!(masked && crate::verif_kani::kernel::counter_get(0) == 1, "retried once on an unmasked handle");
+}
+
+fn leaked_private() -> usize {
+    let k = kref();
+    let mut n = 0;
+    let mut i = 0;
+    while i < MAX_FDS {
+        if i < k.next && k.fds[i].open && k.fds[i].origin == O_PRIVATE_PROC {
+            n += 1;
+        }
+        i += 1;
+    }
+    n
+}
+
+macro_rules! open_h {
+    ($name:ident, $masked:expr) => {
+        #[kani::proof]
+        #[kani::unwind(8)]
+        #[kani::stub(crate::resolvers::procfs::ProcfsResolver::resolve, k_proc_resolve)]
+        #[kani::stub(crate::procfs::ProcfsBase::into_path, k_into_path)]
+        #[kani::stub(crate::procfs::ProcfsHandle::new_unmasked, k_new_unmasked)]
+        #[kani::stub(crate::syscalls::fstatfs, k_fstatfs)]
+        #[kani::stub(crate::syscalls::statx, k_statx)]
+        #[kani::stub(alloc::fmt::format, k_format)]
+        fn $name() {
+            open_body($masked);
+        }
+    };
+}
+open_h!(procfs_open_unmasked, false);
+open_h!(procfs_open_masked, true);
